@@ -424,7 +424,7 @@ PROPS["C13"] = dict(
         "latency verdicts are withheld (counted) when the process itself was stalled by more than 500 ms",
     ],
     jobs=lambda tier: [
-        seeded("closes", "e2e", "^TestC13$", 150 if tier == "quick" else 3000, 16, timeout=900 if tier == "quick" else 3400, journal=True, shrinktime="30s"),
+        seeded("closes", "e2e", "^TestC13$", 100 if tier == "quick" else 3000, 16, timeout=900 if tier == "quick" else 3400, journal=True, shrinktime="30s"),
         seeded("client-close", "e2e", "^TestC13ClientClose$", 150 if tier == "quick" else 3000, 8, timeout=900 if tier == "quick" else 3400, journal=True, shrinktime="30s"),
     ] + ([seeded("closes-race", "e2e", "^TestC13$", 400, 8, timeout=3400, journal=True, race=True, shrinktime="30s")] if tier == "thorough" else []),
 )
